@@ -3,12 +3,30 @@ import Nstd.Path.Model
   ASSUMED semantics of the POSIX calls File.cpp / Directory.cpp use (property C19, file-system part).
   The world is one tree, stored flat: canonical component path ↦ entry (directory | regular file with
   bytes | symbolic link with target text).  The world root `[]` always is a directory.  Path strings are
-  resolved as the kernel does (`.`/`..`, symbolic links with a step budget, final link followed or not).
+  resolved as the kernel does (`.`/`..`, split at `/` only, symbolic links with a step budget, final link followed or not).
   Everything here is a Lean *definition* of what the kernel is assumed to do; it is compared with the
   real kernel by the snapshots of the correspondence run only.
   Outside: permissions, hard links, open files that are unlinked/renamed, concurrent modification.
 -/
 namespace Nstd.Path
+
+/-- the kernel splits a path string at `/` ONLY (a backslash is an ordinary byte of a name) -/
+def ksplit : Bytes → List Bytes
+  | [] => [[]]
+  | c :: cs =>
+    if isSlash c then [] :: ksplit cs
+    else match ksplit cs with
+      | [] => [[c]]
+      | h :: t => (c :: h) :: t
+
+/-- the components the kernel walks: the non-empty pieces between slashes -/
+def kchunks (p : Bytes) : List Bytes := (ksplit p).filter (fun c => !c.isEmpty)
+
+/-- a component the kernel can look up: non-empty, no `/` -/
+def KItemOk (c : Bytes) : Prop := c ≠ [] ∧ ∀ x ∈ c, isSlash x = false
+
+/-- a name an entry can have: non-empty, no `/`, neither `.` nor `..` (a backslash is allowed) -/
+def KName (c : Bytes) : Prop := c ≠ [] ∧ (∀ x ∈ c, isSlash x = false) ∧ c ≠ [46] ∧ c ≠ dotdot
 
 abbrev Name := Bytes
 abbrev CPath := List Name
@@ -74,7 +92,7 @@ def walkAux (fs : Fs) (k : CPath → List Name → Bool → Res) : CPath → Lis
       | some (.file d) => if rest = [] then .found (cur ++ [c]) (.file d) else .err .enotdir
       | some (.link t) =>
         if rest = [] ∧ follow = false then .found (cur ++ [c]) (.link t)
-        else k (if startsWith47 t then [] else cur) (chunks t ++ rest) follow
+        else k (if startsWith47 t then [] else cur) (kchunks t ++ rest) follow
 
 /-- what happens after a link expansion: one unit of the ELOOP budget is used -/
 def walk (fs : Fs) : Nat → CPath → List Name → Bool → Res
@@ -86,7 +104,7 @@ def walkFuel : Nat := 40
 
 def resolve (fs : Fs) (path : Bytes) (follow : Bool) : Res :=
   if path = [] then .err .enoent
-  else walk fs walkFuel (if startsWith47 path then [] else cwd) (chunks path) follow
+  else walk fs walkFuel (if startsWith47 path then [] else cwd) (kchunks path) follow
 
 /-! ### system calls: `Except Errno` results, new world -/
 
